@@ -1,4 +1,5 @@
 import OdakProofs.Lemmas.Geometry
+import OdakProofs.Lemmas.GenGeometry
 
 /-! # C11 – reflection and refraction
   Model: `OdakModel/Geometry.lean` at `α := ℝ`.
@@ -151,5 +152,86 @@ theorem C11_equal_indices (err : ℝ) (d n : Vec3 ℝ) (_hdn : Vec3.dot d n ≠ 
 example : (0 : ℝ) ≤ (refrA (1 / 2) (⟨0, 0, 1⟩ : Vec3 ℝ) ⟨0, 0, 1⟩) ^ 2 - refrB (1 / 2) (⟨0, 0, 1⟩ : Vec3 ℝ)
     ∧ refrA (1 / 2) (⟨0, 0, 1⟩ : Vec3 ℝ) ⟨0, 0, 1⟩ ≠ 0 := by
   geo_simp; norm_num
+
+end Odak
+
+/-! ## The same conclusions for the definitions REGENERATED from the Python source
+  (`Generated/GeometryGen.lean`, tied to the model by `Lemmas/GenGeometry.lean`).  `…T` = torch, `…N` = NumPy. -/
+namespace Odak
+open Odak.Gen
+
+/-- generated NumPy `reflect`: the law of reflection for every non-zero normal (any length, either sign); the returned
+    origin is the normal's point -/
+theorem C11_gen_reflect_law_n (r n : Ray ℝ) (hn : n.d ≠ ⟨0, 0, 0⟩) :
+    (reflectN r n).o = n.o ∧
+    Vec3.normSq (reflectN r n).d = Vec3.normSq r.d ∧
+    Vec3.dot (reflectN r n).d n.d = -(Vec3.dot r.d n.d) ∧
+    (∃ c, (reflectN r n).d - r.d = Vec3.smul c n.d) ∧
+    (reflectN ⟨n.o, (reflectN r n).d⟩ n).d = r.d ∧
+    ∀ c : ℝ, c ≠ 0 → (reflectN r ⟨n.o, Vec3.smul c n.d⟩).d = (reflectN r n).d := by
+  simp only [reflectN_eq, reflectEpsNumpy_eq]
+  obtain ⟨h1, h2, h3, h4, h5⟩ := C11_reflect_law r.d n.d hn
+  exact ⟨trivial, h1, h2, h3, h4, h5⟩
+
+/-- generated torch `reflect`: the exact error against the mirror image, with the epsilon that is in the source today
+    (`1e-8`): the deviation is `2 (d·n) ε / (|n|² (|n|² + ε))` times the normal -/
+theorem C11_gen_reflect_eps_error_t (r n : Ray ℝ) (hn : n.d ≠ ⟨0, 0, 0⟩) :
+    (reflectT r n).o = n.o ∧
+    (reflectT r n).d - reflectDir 0 r.d n.d
+      = Vec3.smul (2 * Vec3.dot r.d n.d * (1 / 100000000) / (Vec3.normSq n.d * (Vec3.normSq n.d + 1 / 100000000))) n.d := by
+  simp only [reflectT_eq, reflectEpsTorch_eq]
+  exact ⟨trivial, C11_reflect_eps_error (1 / 100000000) r.d n.d hn (by norm_num)⟩
+
+/-- hence for a unit normal the generated torch `reflect` is within `2·10⁻⁸ |d·n|` of the mirror image, component by component -/
+theorem C11_gen_reflect_unit_normal_t (r n : Ray ℝ) (hn : Vec3.normSq n.d = 1) :
+    (reflectT r n).d - reflectDir 0 r.d n.d = Vec3.smul (2 * Vec3.dot r.d n.d * (1 / 100000001)) n.d := by
+  have hne : n.d ≠ ⟨0, 0, 0⟩ := by
+    intro h; rw [h] at hn; simp [Vec3.normSq, Vec3.dot] at hn
+  rw [(C11_gen_reflect_eps_error_t r n hne).2, hn]
+  congr 1; ring
+
+/-- the refutation witness for the generated torch `reflect`: a normal of length `1e-4` removes the normal component
+    instead of flipping it -/
+theorem C11_gen_reflect_eps_refuted_t (o p : Vec3 ℝ) :
+    (reflectT ⟨o, ⟨0, 0, 1⟩⟩ ⟨p, ⟨0, 0, 1 / 10000⟩⟩).d = ⟨0, 0, 0⟩ := by
+  simp only [reflectT_eq, reflectEpsTorch_eq]
+  exact C11_reflect_eps_refuted.1
+
+/-- generated loop body of `refract`: after one pass the residual of the quadratic is the square of the step, and the new
+    `eps` is the length of that step -/
+theorem C11_gen_newton_residual (a b t : ℝ) (hs : t + a ≠ 0) :
+    (refrStepT a b t) ^ 2 + 2 * a * refrStepT a b t + b = (refrStepT a b t - t) ^ 2 ∧
+    refrEpsT a b t = |t - refrStepT a b t| := by
+  rw [refrEpsT_eq, refrStepT_eq]
+  exact ⟨C11_newton_residual a b t hs, rfl⟩
+
+/-- generated `refract` at loop exit (`eps ≤ error`): the output direction is a unit vector up to `‖n‖² error²`, and the
+    output starts at the normal's point.  `mu`, `a`, `b`, the step and the output are all the regenerated definitions. -/
+theorem C11_gen_refract_unit_at_exit (n1 n2 err t : ℝ) (v n : Ray ℝ) (hd : Vec3.normSq v.d = 1) (hn : n.d ≠ ⟨0, 0, 0⟩)
+    (hs : t + refrA_T (refrMuT n1 n2) v n ≠ 0)
+    (hexit : refrEpsT (refrA_T (refrMuT n1 n2) v n) (refrB_T (refrMuT n1 n2) n) t ≤ err) :
+    (refrOutT (refrMuT n1 n2) (refrStepT (refrA_T (refrMuT n1 n2) v n) (refrB_T (refrMuT n1 n2) n) t) v n).o = n.o ∧
+    |Vec3.normSq (refrOutT (refrMuT n1 n2) (refrStepT (refrA_T (refrMuT n1 n2) v n) (refrB_T (refrMuT n1 n2) n) t) v n).d - 1|
+      ≤ Vec3.normSq n.d * err ^ 2 := by
+  rw [refrEpsT_eq] at hexit
+  simp only [refrA_T_eq, refrB_T_eq, refrStepT_eq, refrOutT_eq] at hs hexit ⊢
+  exact ⟨trivial, C11_refract_unit_at_exit _ err t v.d n.d hd hn hs hexit⟩
+
+/-- generated `refract` output: Snell's law in vector form and coplanarity, for every `to` -/
+theorem C11_gen_snell (mu tau : ℝ) (v n : Ray ℝ) :
+    Vec3.cross (refrOutT mu tau v n).d n.d = Vec3.smul mu (Vec3.cross v.d n.d) ∧
+    ∃ x y, (refrOutT mu tau v n).d = Vec3.smul x v.d + Vec3.smul y n.d := by
+  rw [refrOutT_eq]; exact C11_snell mu tau v.d n.d
+
+/-- generated start value and `mu`: `mu = n1 / n2`, and equal indices give `b = 0`, start value `0` -/
+theorem C11_gen_equal_indices (n1 : ℝ) (h1 : n1 ≠ 0) (v n : Ray ℝ) :
+    refrMuT n1 n1 = 1 ∧ refrB_T (refrMuT n1 n1) n = 0 ∧
+    refrStartT (refrA_T (refrMuT n1 n1) v n) (refrB_T (refrMuT n1 n1) n) = 0 ∧
+    (refrOutT (refrMuT n1 n1) 0 v n).d = v.d := by
+  have hmu : refrMuT n1 n1 = 1 := by simp only [refrMuT]; exact div_self h1
+  have hb : refrB_T (1 : ℝ) n = 0 := by rw [refrB_T_eq]; simp [refrB, num_sq]
+  refine ⟨hmu, by rw [hmu, hb], ?_, ?_⟩
+  · rw [hmu, hb, refrStartT_eq]; simp [refrStart]
+  · rw [hmu, refrOutT_eq]; apply Vec3.ext' <;> geo_simp <;> ring
 
 end Odak
